@@ -33,10 +33,20 @@ func init() {
 				return
 			}
 			s := w.session(st.Sess)
+			now := time.Unix(time.Now().Unix(), 0)
+			validFrom := now
+			if strings.HasPrefix(st.A, "notyet:") {
+				// a session of the deployment (same key, e.g. a sibling instance with a fast clock) that is not valid yet
+				if d, err := time.ParseDuration(st.A[len("notyet:"):]); err == nil && d > 0 {
+					validFrom = now.Add(d)
+					if v2 := vfResignJWT(v, "ca_rsa", func(m map[string]any) { m["nbf"] = validFrom.Unix() }); v2 != "" {
+						v = v2
+					}
+				}
+			}
 			s.Cookies[authCookieName] = v
 			w.model.lineages++
-			now := time.Unix(time.Now().Unix(), 0)
-			w.model.cookies[v] = &vfCookieInfo{Subject: st.User, Proven: int(st.N), Carried: int(st.N), AuthAt: now,
+			w.model.cookies[v] = &vfCookieInfo{Subject: st.User, Proven: int(st.N), Carried: int(st.N), AuthAt: validFrom,
 				Exp: now.Add(life), Kind: "session", Lineage: w.model.lineages}
 		}
 		return p
